@@ -14,7 +14,8 @@ CLAIMED = {
             "Every broker-API history up to the depth bound (2-3 messages, 4 consumers incl. delayed/dead categories, "
             "4 enqueue timings, clock advances) is executed on the real broker code and compared with a reference "
             "model after every operation; every distinct (state, operation) pair is additionally cancelled at each "
-            "of its loop iterations and must end in the pre- or post-state.",
+            "of its loop iterations and must end in the pre- or post-state (a terminal call left in the pre-state must "
+            "work when repeated), and re-run with every single server-timing deviation followed by a drain epilogue.",
             FAKES + " Bounded: depth 5 (quick) / 6-7 (thorough); states merged on a canonical key.", "DESIGN.md 4 C01"),
     "C02": ("model_checking", "exhaustive scenario matrix, each cell one deterministic worker run with a broker-call spy",
             "Full product of 37 actor behaviours x retry budget x attempts x recurring x result storing x both "
@@ -25,7 +26,10 @@ CLAIMED = {
             "For every scenario (broker x graceful period x actor kind x load) SIGTERM is delivered at the select phase "
             "of every loop iteration of the run, alone and combined with one time slip (a timer firing in the middle "
             "of the shutdown chain) within 16 iterations; after run() returned and the loop settled every message must "
-            "rest in a state the lifecycle model allows, nothing in flight, run() back within grace + 6.5 s.",
+            "rest in a state the lifecycle model allows, nothing in flight, run() back within grace + 6.5 s. One scenario "
+            "per broker (more in the thorough tier) combines every stop instant with every single server-timing deviation; "
+            "on Redis the worker's clients are also killed at every iteration and maintenance has to recover exactly the "
+            "in-flight messages, only after their execution timeout.",
             FAKES + " Signals become visible at the select phase as on a real loop (validated against stock asyncio).",
             "DESIGN.md 4 C03"),
     "C04": ("model_checking", "exhaustive matrix of retry chains run to the end in virtual time",
@@ -41,7 +45,8 @@ CLAIMED = {
     "C10": ("model_checking", "exhaustive matrix M x backlog x durations x tasks_limit x queues x broker, plus testing plugin",
             "Each cell is a real Worker.run() that has to stop by itself: executions started <= M, run() returns after "
             "M finished, every message beyond M waiting with identical parameters; run-on-enqueue mode of the testing "
-            "plugin returns after exactly that job ran once.",
+            "plugin returns after exactly that job ran once; a worker one message short of its limit with two more "
+            "arriving at every loop iteration.",
             FAKES, "DESIGN.md 4 C10"),
     "C05": ("model_checking", "exhaustive grid of due offsets x clock phase x consumer polling phase x broker, enqueue sweep",
             "Due offsets from the past to 100 years x 4 positions inside the clock second x 5 consumer modes, all "
@@ -52,7 +57,8 @@ CLAIMED = {
     "C12": ("model_checking", "exhaustive grid ttl x delivery instant around the expiry x message kind x broker",
             "A worker starts listening exactly at expiry -0.5 s, -1 ms, 0, +1 ms, +0.5 s for immediate, delayed, retried "
             "and rescheduled messages; a per-iteration monitor records when the message is dead-lettered: never "
-            "executed after expiry, never dead-lettered at or before it, expired messages readable from the dead category.",
+            "executed after expiry, never dead-lettered at or before it, expired messages readable from the dead category; "
+            "with the dead-lettering call failing once the message is still never executed.",
             FAKES, "DESIGN.md 4 C12"),
     "C14": ("model_checking", "start/stop sweeps over every iteration + deviation-bounded search over server request order and stalls",
             "Two consumers and two workers on one queue (1-3 messages): the second participant starts, and the first "
@@ -63,7 +69,8 @@ CLAIMED = {
     "C15": ("model_checking", "exhaustive words over enqueue/consume/reject on the real brokers against a FIFO model",
             "All words up to length 6-7 from the empty queue and all words up to length 4-5 appended to backlogs of 1..13 "
             "messages in three topic patterns (straddling Redis' 10-name window), with one consumer and with a second "
-            "consumer for the foreign topic; every consume() must return a message the FIFO model allows.",
+            "consumer for the foreign topic, and with mixed priorities under each of the three priority orders Redis draws "
+            "at random; every consume() must return a message the FIFO model allows (order within a priority).",
             FAKES + " Delayed-then-due messages are outside the order oracle.", "DESIGN.md 4 C15"),
     "C13": ("fault_enumeration", "scenario matrix x exhaustive enumeration of failing result-bucket calls (up to 2) with a fault-free twin",
             "Execution chains (single, retry, recurring, eager) x values / exceptions x storing on/off x ttl x bucket "
@@ -75,7 +82,8 @@ CLAIMED = {
             "All sequences up to length 3 (4) of the six message-API actions on messages from every category and retry "
             "state on all brokers, and inside actors all sequences over add_callback/set_result/set_exception followed "
             "by each eager response: one action succeeds, later ones raise and cause no broker call, refusals leave the "
-            "handle usable, callbacks in order with the store at the latest set_*, trailing code never runs.",
+            "handle usable, callbacks in order with the store at the latest set_*, trailing code never runs, a retry "
+            "through a handle without a delay is due at once.",
             FAKES, "DESIGN.md 4 C16"),
     "C17": ("model_checking", "scripted operation sequences x subscriber sets with a subscriber-free differential twin",
             "Every wrapped broker / bucket / consumer / actor-run operation is invoked with positional, keyword and mixed "
@@ -84,10 +92,12 @@ CLAIMED = {
             "nested operations silent, and results / broker calls / final state equal the subscriber-free twin.",
             FAKES, "DESIGN.md 4 C17"),
     "C08": ("exploration", "bounded-exhaustive enumeration of signatures x payloads x converters against a binding model",
-            "All 1000+ signatures with up to 3 parameters (three kinds, defaults, *args, **kwargs, dependency parameter) x "
+            "All 688 (thorough: 3 400) signatures with up to 3 (4) parameters (three kinds, defaults, *args, **kwargs, dependency parameter) x "
             "all payloads (name subsets, 0-2 extras, '', '{}') x Basic / Pydantic / default selection, each through the real "
             "_Processor.actor_run: parameters get their entry or default, extras only in a catch-all, missing required "
-            "parameter fails without entering the body, empty payload runs all-defaults actors, outputs round-trip.",
+            "parameter fails without entering the body, empty payload runs all-defaults actors, outputs round-trip "
+            "(untyped and through int / list / dict / union / model return annotations); converters of other actors "
+            "are built before every case (no state may be shared).",
             "Finite alphabet of int values; at most 3 parameters and 2 extras; not a proof over all signatures.", "DESIGN.md 4 C08"),
     "C19": ("exploration", "bounded-exhaustive enumeration of pure-function inputs under a pinned clock",
             "Default back-off over a 5x5x3x5 parameter grid x 82 retry numbers (monotone, within bounds, no exception); "
@@ -103,7 +113,8 @@ CLAIMED = {
             "run_in_process providers excluded; in-memory broker for the worker cases.", "DESIGN.md 4 C18"),
     "C09": ("model_checking", "exhaustive matrix of duration assignments x limits x arrivals on real workers + enqueue sweep",
             "tasks_limit 1-3 x 1-2 queues x every assignment of 4 durations to 3-4 messages x failure pattern x arrival "
-            "pattern x broker, and a late message enqueued at every loop iteration of the saturated window: bodies in "
+            "pattern x broker, a late message (same or second queue) enqueued at every loop iteration of the saturated "
+            "window, and RabbitMQ cancelling the consumer server-side at every iteration: bodies in "
             "progress never exceed the limit on the full entry/exit log, every job executed within the bound, a free "
             "slot is refilled within 0.5 s.",
             FAKES + " Liveness as bounded response.", "DESIGN.md 4 C09"),
@@ -118,7 +129,7 @@ CLAIMED = {
             "of job settings x transports x brokers through enqueue -> consume with field-by-field comparison; "
             "decode(encode(x)) == x for all parameter / bucket codecs over timestamp x duration grids (incl. all powers of "
             "two of microseconds to 2^51 and 100 years +-1 us); all 584 strings of length <= 3 over an 8-letter alphabet as "
-            "ids / names through validators and key encodings.",
+            "ids / names through validators and key encodings; two and three jobs with distinct arguments in flight at once.",
             FAKES + " Finite alphabets; payloads with the reserved bucket marker excluded.", "DESIGN.md 4 C07"),
     "C20": ("model_checking", "client byte strings, fragmentations, consumer failure and stop interleaved with a running worker on a virtual TCP model; loopback conformance",
             "Valid request, every truncation, wrong path / method, binary, oversized and pipelined requests x every 2-split "
